@@ -607,10 +607,10 @@ def r_src_route(model, rep):
             # source lookup: payload[variant].get('src', {}).get(<same srpm key>, None)
             base = T.unwrap(lv[1])
             want = ("call", ("attr", ("call", ("attr", ("sub", lv[1], v), "get"), (("const", "src"), ("dict", ())), ()), "get"), (sn, ("const", None)), ())
+            # (what the source add() takes its path from - whatever the local holding it is called)
             srpm_data = None
-            for ev in cx.events:
-                if ev.kind == "bind" and ev.target == ("bound", "srpm_data"):
-                    srpm_data = ev.value
+            if len(s.value[2]) > 3 and s.value[2][3][0] == "sub" and s.value[2][3][2] == ("const", "path"):
+                srpm_data = s.value[2][3][1]
             ok = srpm_data == want
             msg = "the source package must be looked up in the variant's 'src' table under the same source-package key"
             if ok:
